@@ -43,6 +43,9 @@ def bounded_rate(r, species, params=None):
     s2 = r.choice(species)
     terms = [["num", netgen.rate(r, 0.1, 2.0)]]
     pool = [
+        # unary minus in front of a power (Gaussian bump): -(x)^2 is -(x^2), whoever parses it
+        ["exp", ["/", ["neg", ["^", ["-", ["sp", s], ["num", 3.0]], ["num", 2.0]]], ["num", 8.0]]],
+        ["+", ["neg", ["^", ["num", 0.5], ["num", 2.0]]], ["num", 1.0]],
         ["exp", ["*", ["num", -0.1], ["sp", s]]],
         ["heaviside", ["-", ["sp", s], ["num", 2.5]]],
         ["/", ["sp", s], ["+", ["sp", s], ["num", 2.0]]],
@@ -70,6 +73,9 @@ def rich_rate(r, species, params=None):
         ["abs", ["-", ["sp", s], ["num", 3.0]]],
         ["max", ["sp", s], ["num", 2.0]],
         ["min", ["sp", s2], ["num", 5.0]],
+        # unary minus in front of a power (Gaussian bump): -(x)^2 is -(x^2), whoever parses it
+        ["exp", ["/", ["neg", ["^", ["-", ["sp", s], ["num", 3.0]], ["num", 2.0]]], ["num", 8.0]]],
+        ["+", ["neg", ["^", ["num", 0.5], ["num", 2.0]]], ["num", 1.0]],
         ["exp", ["*", ["num", -0.1], ["sp", s]]],
         ["log", ["+", ["num", 1.0], ["sp", s2]]],
         ["^", ["+", ["sp", s], ["num", 1.0]], ["num", 0.5]],
@@ -134,8 +140,19 @@ def add_species_rule(r, m, allow_ode=False, existing_target=None):
     elif u < 0.5:
         rule = {"type": "additive", "target": tgt, "expr": [r.choice(src) for _ in range(r.randint(1, 2))], "freq": "repeated"}
     else:
-        rule = {"type": "assignment", "target": tgt,
-                "expr": ["+", ["*", ["num", netgen.nice(r.uniform(0.5, 3.0))], ["sp", r.choice(src)]], ["num", 1.0]],
+        sp_ = r.choice(src)
+        expr = ["+", ["*", ["num", netgen.nice(r.uniform(0.5, 3.0))], ["sp", sp_]], ["num", 1.0]]
+        if r.random() < 0.4:
+            # richer right-hand sides: operators whose spelling / precedence a writer or reader can get wrong
+            expr = expr + [r.choice([
+                ["exp", ["/", ["neg", ["^", ["-", ["sp", sp_], ["num", 3.0]], ["num", 2.0]]], ["num", 8.0]]],
+                ["+", ["neg", ["^", ["num", 0.5], ["num", 2.0]]], ["num", 1.0]],
+                ["log", ["+", ["num", 2.0], ["sp", sp_]]],
+                ["^", ["+", ["sp", sp_], ["num", 1.0]], ["num", 0.5]],
+                ["max", ["sp", sp_], ["num", 2.0]],
+                ["abs", ["-", ["sp", sp_], ["num", 3.0]]],
+            ])]
+        rule = {"type": "assignment", "target": tgt, "expr": expr,
                 "freq": r.choice(["repeated", "repeated", "dt", "start", r.choice([0.25, 1.0, 2.5, 0.0, 0])])}
     if existing_target is None:
         m["species"].append(tgt)
@@ -741,7 +758,12 @@ class Machine:
             if pa.get(p) != pb.get(p):
                 self.bad(cls, sig, what="parameter value differs", parameter=p, a=pa.get(p), b=pb.get(p))
                 return False
-        fa, fb = model_fingerprint(A, names, states), model_fingerprint(B, names, states)
+        fa = model_fingerprint(A, names, states)
+        try:
+            fb = model_fingerprint(B, names, states)
+        except Exception as e:      # the second model's own observables are inconsistent (e.g. stale matrices of another shape)
+            self.bad(cls, sig, what="the second model cannot be inspected like the first", error=f"{type(e).__name__}: {str(e)[:200]}")
+            return False
         for key in ("imm", "del"):
             if fa[key] != fb[key]:
                 self.bad(cls, sig, what=f"{key} stoichiometry differs", a=fa[key], b=fb[key])
